@@ -1107,3 +1107,15 @@ add("C20", "target side of a caller matching looked up in the source's table", D
 add("C20", "benign: per-side tables renamed and inlined", DIFF, _C20J_OLD,
     "            src_map = compute_node_mappings(source_nodes, tuple(source_copy.walk()))\n"
     "            matchings = [\n                (src_map[id(a)], compute_node_mappings(target_nodes, tuple(target_copy.walk()))[id(b)])\n                for a, b in matchings\n            ]\n", "silent", 0)
+
+# ------------------------------------------------------------------------------- C12.j
+SERDE_F = "sqlglot/serde.py"
+add("C12", "dump() skips the type annotation of casts", SERDE_F,
+    "            if node.type and node.type is not node:\n",
+    "            if node.type and node.type is not node and not node.is_cast:\n", "C12.j")
+add("C12", "dump() keeps comments only on non-literal nodes", SERDE_F,
+    "            if node.comments:\n",
+    "            if node.comments and not isinstance(node, exp.Literal):\n", "C12.j")
+add("C12", "benign: type slot tested through the raw attribute", SERDE_F,
+    "            if node.type and node.type is not node:\n",
+    "            if node._type is not None and node.type is not node:\n", "silent", 0)
